@@ -309,6 +309,9 @@ def nondegenerate_surface(V, F, require_planar_polys=True):
                 n = cross(sub(pts[(i + 1) % 4], pts[i]), sub(pts[(i + 3) % 4], pts[i]))
                 if dot(n, n) == 0:
                     return False
+            # a PLANAR quad must be convex here (darts live in the dedicated non-convex stream); skew quads are allowed
+            if is_planar(pts) and not convex_planar(pts):
+                return False
         else:
             if require_planar_polys and not convex_planar(pts):
                 return False
@@ -459,7 +462,8 @@ def gen_transform(rng, kind):
             return {"kind": kind, "scale": Fr(N), "R": R, "t": t, "quat": q}
         return {"kind": kind, "scale": Fr(1), "R": R, "t": t, "quat": q}  # coordinates get rounded to binary64
     if kind == "scale":
-        s = rng.choice([Fr(1, 2), Fr(2), Fr(3), Fr(1, 4), Fr(5, 2), Fr(7)])
+        # incl. the two extreme magnitudes ~1e-7 and ~1e39 (powers of two: exact): the property is scale-covariant
+        s = rng.choice([Fr(1, 2), Fr(2), Fr(3), Fr(1, 4), Fr(5, 2), Fr(7), Fr(1, 2 ** 23), Fr(2 ** 130)])
         return {"kind": kind, "scale": s, "R": I, "t": [Fr(0)] * 3}
     raise ValueError(kind)
 
@@ -559,6 +563,9 @@ def gen_script(rng, kind, nV, nF, nCorn, nCells, ncalls, geom=None):
                     n_ = cross(sub(V_[f[1]], V_[f[0]]), sub(V_[f[2]], V_[f[0]]))
                     fv.append([float(n_[i] * 2 + rng.randint(-1, 1)) for i in range(3)])
                 pool.append(["vnormals_c", w, fv] + pd())
+        if kind != "tri":
+            # triangulation-only functions on a quad / polygon mesh must raise (and leave the mesh usable afterwards)
+            pool += [["cot"] + pd(), ["cw"] + pd(), ["defects", False] + pd(), ["circum"] + pd()]
         if kind == "tri":
             pool += [["circum"] + pd(), ["circum"] + pd(), ["cot"] + pd(), ["cw"] + pd(), ["cot"] + pd(), ["cw"] + pd(),
                      ["defects", False] + pd(), ["defects", True] + pd(), ["defects", False] + pd()]
